@@ -69,6 +69,7 @@ def run(ctx) -> None:
     r10_5(ctx, classes)
     from .common import descriptor_binding
     descriptor_binding(ctx, "R10.7", ("_lrucache",))
+    r10_8(ctx, classes)
     ctx.floor("descriptors", 2)
     ctx.floor("wrapper_classes", 3)
     ctx.floor("maxsize_classes", 6)
@@ -617,6 +618,34 @@ def r10_3(ctx, lc: LruClass) -> None:
     ok = len(calls) == 1 and {k.arg: norm(k.value) for k in calls[0].keywords}.get("maxsize") == norm(info.get("maxsize")) \
         and any(k.arg == "typed" and isinstance(k.value, ast.Attribute) for k in calls[0].keywords)
     ctx.check(ok, "R10.3", params, "cache_parameters", "cache_parameters reports the same maxsize as cache_info and the typed flag")
+
+
+def r10_8(ctx, classes) -> None:
+    """functools.lru_cache caches every result, None included.  Whether a call is a hit is a question about the key
+    (``cache[key]`` with KeyError, ``key in cache``) - a lookup that hands back a stand-in for "absent" which a cached
+    result could be identical with (``cache.get(key)`` is None for a miss *and* for a cached None) is not."""
+    ctx.rule("R10.8", "hit or miss is decided by the presence of the key, never by comparing the looked-up value with something a "
+                      "cached result could be (None / a constant)")
+    for kind, lc in classes.items():
+        if lc.cache is None:
+            continue
+        u = ctx.inlined(lc.call)
+        bad = 0
+        for n in own_nodes(u.node):
+            if not (isinstance(n, ast.Call) and isinstance(n.func, ast.Attribute) and n.func.attr in ("get", "pop", "setdefault")
+                    and lc.is_self_attr(n.func.value, lc.cache)):
+                continue
+            default = n.args[1] if len(n.args) > 1 else next((k.value for k in n.keywords if k.arg == "default"), None)
+            private = False
+            if isinstance(default, (ast.Name, ast.Attribute)):
+                v = ctx.vals.expr(u, default, None)
+                private = bool(v) and all(a[0] == "sentinel" for a in v)
+            if not private:
+                bad += 1
+                ctx.fail("R10.8", u, n, f"`{norm(n)}` answers a miss with {norm(default) if default is not None else 'None'}, which is "
+                         "also what a cached call may have returned: that entry is never a hit", line=n.lineno)
+        if not bad:
+            ctx.ok("R10.8", u, f"[{kind}] hits are decided by key presence")
 
 
 def _key_signature(lc: LruClass, m, depth: int = 0):
